@@ -157,7 +157,7 @@ func judgeRelay(w *proxyWorld, res *Result) {
 		res.Evals++
 		desc := fmt.Sprintf("%s %s", ex.Method, ex.Req.Target)
 		if !ex.Complete {
-			res.violate("C08.a", "no-complete-response", "%s: %s [%s] proxy log: %s | %s", desc, ex.Err, pd, strings.Join(w.errLog, " ; "), strings.Join(w.srvLog, " ; "))
+			res.violate("C08.a", "no-complete-response", "%s: %s [%s] proxy log: %s | %s", desc, ex.Err, pd, strings.Join(w.errLog, " ; "), strings.Join(w.srvLog, " ; ")+" | simnet: "+strings.Join(w.netNotes, " ;; "))
 			continue
 		}
 		o := w.attrib(ex)
